@@ -534,6 +534,12 @@ func (hs *clientHandshakeStateTLS13) processServerHello() error {
 		c.sendAlert(alertIllegalParameter)
 		return errors.New("tls: server did not send a key share")
 	}
+	if isGREASEUint16(uint16(hs.serverHello.serverShare.group)) {
+		// [uTLS] The GREASE key share a parrot sends is no offer: a server that
+		// selects it must be refused (RFC 8701, Section 3.1).
+		c.sendAlert(alertIllegalParameter)
+		return errors.New("tls: server selected a GREASE group")
+	}
 	if !slices.ContainsFunc(hs.hello.keyShares, func(ks keyShare) bool {
 		return ks.group == hs.serverHello.serverShare.group
 	}) {
